@@ -103,6 +103,7 @@ SStep(op, r, s) ==
        [] op[1] = "move" -> str' = [str EXCEPT ![i] = str[3 - i], ![3 - i] = <<>>]
        [] op[1] = "assign_str" -> str' = IF Ok(r) THEN Set(str[a + 1]) ELSE Set(act)
        [] op[1] = "append_str" -> str' = IF Ok(r) THEN Set(m \o str[a + 1]) ELSE Set(act)
+       [] op[1] = "append_self" -> str' = IF Ok(r) THEN Set(m \o m) ELSE Set(act)
        [] op[1] = "assign_sub" -> a + b <= Len(m) /\ str' = IF Ok(r) THEN Set(SubSeq(m, a + 1, a + b)) ELSE Set(act)
        [] op[1] \in {"eq", "eq_cstr"} -> str' = str /\ r[1] = (IF m = bytes THEN 1 ELSE 0)
        [] op[1] = "eq_str" -> str' = str /\ r[1] = (IF m = str[a + 1] THEN 1 ELSE 0)
